@@ -522,6 +522,16 @@ def evaluate(case, env):
                 if rmatch(ref_pat, n_, e_):
                     all_inst.append((n_, e_))
         goal_ok = all(isinstance(getattr(n_, "ctx", ast.Load()), ast.Load) and all(_argument_like(v) for v in e_.values()) for n_, e_ in all_inst)
+        import re as _re
+
+        if _re.search(r"\(\s*\$\{", pattern) and any(
+            isinstance(v, ast.Slice) or (isinstance(v, ast.Tuple) and any(isinstance(e2, ast.Slice) for e2 in v.elts)) for _n, e_ in all_inst for v in e_.values()
+        ):
+            # the pattern's own text puts parentheses around a wildcard, and some instance binds that wildcard to a slice
+            # (a[1:2] is an instance of a[((${w}))] as a tree): no text can put a slice back inside parentheses, so
+            # "the goal written like the pattern changes nothing" cannot be asked of this pair
+            out.notes["slice_bound_to_a_parenthesised_wildcard"] += 1
+            return out
         stmt_goal = bool(case["stmts"]) and isinstance(ref_pat, list) and case["goal"] != "same"
         if stmt_goal:
             # a statement pattern with a goal that differs from it: every chosen window gets a marker statement in front.
